@@ -172,6 +172,14 @@ theorem C11_utf8_rejects (b0 : BitVec 8) (rest : List (BitVec 8)) :
 
 example : isCont (0x80#8).toNat = true ∧ isCont (byteAt ([] : List (BitVec 8)) 0).toNat = false := by decide
 
+-- ------------------------------------------------------------------ identifiers (6.4.2.1, Annex D)
+
+/-- **C11 (identifier characters).**  For every code point (every natural number): `is_ident1`
+    accepts exactly the characters that may start an identifier (`_ a-z A-Z $`, Annex D.1 minus
+    D.2) and `is_ident2` exactly those that may continue one (those, digits, D.2). -/
+theorem C11_ident_ranges (c : Nat) : isIdent1 c = identStart c ∧ isIdent2 c = identContinue c :=
+  ident_ranges c
+
 -- ------------------------------------------------------------------ UTF-16 (RFC 2781)
 
 /-- **C11 (UTF-16 units).**  For every code point up to U+10FFFF the units stored by
